@@ -105,6 +105,11 @@ Proof. decide equality. apply policy_eq_dec. Qed.
 Lemma option_node_eq_dec (a b : option node) : {a = b} + {a <> b}.
 Proof. decide equality. decide equality; apply N.eq_dec. Qed.
 
+Lemma restart_graph_same st :
+  s_edges (restart st) = s_edges st /\ s_nodes (restart st) = s_nodes st /\
+  s_zombies (restart st) = s_zombies st /\ s_closed (restart st) = s_closed st.
+Proof. repeat split. Qed.
+
 Ltac break_match H :=
   repeat match type of H with
          | context [match ?x with _ => _ end] =>
